@@ -437,6 +437,16 @@ func (c *Ctx) applyContract(s *State, in ssa.Instruction, fc *FuncContract, call
 		name := fmt.Sprintf("%s/holds@%s#%d:%s[%d]", fnKey(in.Parent()), otag(in), c.ordinal("requires", in), shortName(fc.Key), i+1)
 		c.oblige(s, "guard", name, Or(alts...), pos, "callee "+fc.Key+" requires the caller to hold "+h.Src, []string{"C19"})
 	}
+	for i, ul := range fc.UnderLock {
+		ok := false
+		for _, l := range s.locks {
+			if l.Key == ul.Key && (l.Write || ul.Read) {
+				ok = true
+			}
+		}
+		name := fmt.Sprintf("%s/holds@%s#%d:%s:under[%d]", fnKey(in.Parent()), otag(in), c.ordinal("requires", in), shortName(fc.Key), i+1)
+		c.oblige(s, "guard", name, BoolLit(ok), pos, "callee "+fc.Key+" requires the caller to hold "+ul.Key, append([]string{"C19"}, c.props...))
+	}
 	for i, rq := range fc.Requires {
 		g := env.evalRequires(rq.Expr, callee)
 		c.reportEvalErrors(env, fc, rq.Src)
